@@ -108,8 +108,9 @@ def constIs (f : Func) (o : Operand) (k : Nat) : Bool :=
   | _ => false
 
 def addZeroInstr (f : Func) : Instr → Func
-  | .binop d _ .add a b =>
-    if constIs f b 0 then subst f d a
+  | .binop d t .add a b =>
+    if t.isFloat then f                       -- x + 0.0 is not x for x = -0.0
+    else if constIs f b 0 then subst f d a
     else if constIs f a 0 then subst f d b
     else f
   | .binop d _ .mul a b => if constIs f b 1 then subst f d a else f
@@ -143,7 +144,7 @@ def deleteUnused (f : Func) : Func :=
 /-- python equality of two constant payloads (used as dict keys together with the type) -/
 def constKeyEq : ConstVal → ConstVal → Bool
   | .int a, .int b => a == b
-  | .fbits a, .fbits b => a == b && !(a / 2 ^ 52 % 2048 == 2047 && a % 2 ^ 52 != 0) || (zeroBits a && zeroBits b)
+  | .fbits a, .fbits b => a == b && !(a / 2 ^ 52 % 2048 == 2047 && a % 2 ^ 52 != 0)   -- same bits, not NaN (sign of zero kept apart)
   | _, _ => false
 
 /-- key of an instruction in `ins_map`, as the instruction that was recorded -/
